@@ -128,8 +128,8 @@ def cache_policy():
               (False: the second call is a silent cache hit)
       clear : a failed run repeated with the same inputs (after clearing `failed`) runs again
               (False: the second call is a silent cache hit)
-      abort : (C06's subject) a starting node that is not ready makes `Composite.run` raise that
-              ReadinessError at once (False: collected, FailedChildError after the graph has run)
+      abort : (C06's subject) the exception of a failing starting node escapes `Composite.run` as it is
+              (False: collected, FailedChildError after the rest of the graph has run)
     """
     global _POLICY
     if _POLICY is None:
@@ -159,12 +159,12 @@ def cache_policy():
         from pyiron_workflow import Workflow
 
         wf = Workflow("c16probe", autoload=None)
-        wf.n = nodes_c16.B3(a="x", b="y")
+        wf.n = nodes_c16.Boom(x="x")
         abort = None
         try:
             wf.run()
         except Exception as e:  # noqa: BLE001
-            abort = type(e).__name__ == "ReadinessError"
+            abort = type(e).__name__ != "FailedChildError"
         _POLICY = {"gate": bool(gate), "clear": bool(clear), "abort": bool(abort),
                    "probe_ok": gate is not None and clear is not None and abort is not None}
     return _POLICY
